@@ -1372,10 +1372,16 @@ pub fn ignorable_frame(r: &mut Rng, sim: &Sim, w: &mut World, p: usize) -> (Ev, 
             4 => {
                 // Announce from an identity outside the acceptable master list
                 if let Some(l) = &sim.cfgs[p].acceptable {
-                    let bad = 0x6100_0000_0000_0000u64;
+                    // a stranger, or (the multiport rule must not be reachable for an unacceptable
+                    // sender either) a lower-numbered port of the clock itself
+                    let (bad, bad_port) = if p >= 1 && !l.contains(&own) && r.chance(1, 2) {
+                        (own, 1 + r.below(p as u64) as u16)
+                    } else {
+                        (0x6100_0000_0000_0000u64, 1u16)
+                    };
                     if !l.contains(&bad) {
                         kind = "unacceptable";
-                        let h = w.hdr(ANNOUNCE, bad, 1, r.next() as u16);
+                        let h = w.hdr(ANNOUNCE, bad, bad_port, r.next() as u16);
                         let mut a = w.masters[0].ann.clone();
                         a.prio1 = 1;
                         break Ev::RecvGeneral(p, frame(&h, &announce_body(&a), &[]));
